@@ -55,15 +55,15 @@ func NewSyncedPool(producer kvdb.DBProducer, flushIDKey []byte) *SyncedPool {
 
 func (p *SyncedPool) Initialize(dbNames []string, flushID []byte) ([]byte, error) {
 	p.Lock()
+	defer p.Unlock()
+
 	for _, name := range dbNames {
 		wrapper := p.getDB(name)
 		_, err := wrapper.InitUnderlyingDb()
 		if err != nil {
-			p.Unlock()
 			return flushID, err
 		}
 	}
-	p.Unlock()
 	return p.checkDBsSynced(flushID)
 }
 
@@ -232,10 +232,8 @@ func (p *SyncedPool) NotFlushedSizeEst() int {
 }
 
 // checkDBsSynced on startup, after all dbs are registered.
+// The pool's mutex must be held by the caller.
 func (p *SyncedPool) checkDBsSynced(flushID []byte) ([]byte, error) {
-	p.Lock()
-	defer p.Unlock()
-
 	dbs := map[string]kvdb.Store{}
 	for name, w := range p.wrappers {
 		db, err := w.Flushable.InitUnderlyingDb()
